@@ -92,6 +92,9 @@ def _requantify_obligations(eng, n0, bound, guard):
 def evaluate(eng, e, st, kind):
     g = _one_gen(e)
     coll = eng.ev(g.iter, st)
+    whole = eng.reg._hook("comprehension_whole", eng, e, st, kind, coll)
+    if whole is not None:
+        return whole
     b = _bind_elem(eng, st, g, coll)
     if b is None:
         return Val(TEmpty(kind), None)
